@@ -2,7 +2,7 @@
 //! in the interpreter, which reports reads of uninitialised bytes, out-of-bounds accesses and provenance errors
 //! that never become visible in the queue's contents. Contents are still compared with a VecDeque.
 //! usage: c04miri <jobs-file> <shard> <nshards>
-use ruzstd::decoding::verif::RingBuffer;
+use ruzstd::decoding::verif::{DecodeBuffer, RingBuffer};
 use std::collections::VecDeque;
 use std::io::Read;
 
@@ -37,6 +37,10 @@ fn main() {
             continue;
         }
         jobs += 1;
+        if let Some(rest) = line.strip_prefix('B') {
+            steps += buffer_job(i, rest);
+            continue;
+        }
         let mut r = RingBuffer::new();
         let mut model: VecDeque<u8> = VecDeque::new();
         let mut ctr = 0u32;
@@ -97,4 +101,120 @@ fn main() {
         }
     }
     println!("MIRI-OK jobs={jobs} steps={steps}");
+}
+
+struct Sink {
+    got: Vec<u8>,
+    per_call: usize,
+    budget: usize,
+    kind: u8,
+}
+impl std::io::Write for Sink {
+    fn write(&mut self, b: &[u8]) -> std::io::Result<usize> {
+        if self.budget == 0 {
+            return if self.kind == 1 { Err(std::io::ErrorKind::WouldBlock.into()) } else { Ok(0) };
+        }
+        let n = b.len().min(self.per_call).min(self.budget);
+        self.budget -= n;
+        self.got.extend_from_slice(&b[..n]);
+        Ok(n)
+    }
+    fn flush(&mut self) -> std::io::Result<()> {
+        Ok(())
+    }
+}
+
+/// "window,dictlen|op;op;…" on the real DecodeBuffer against a Vec model (history = dictionary ++ produced)
+fn buffer_job(i: usize, spec: &str) -> u64 {
+    let (head, ops) = spec.split_once('|').unwrap();
+    let hp: Vec<usize> = head.split(',').map(|s| s.parse().unwrap()).collect();
+    let (window, dict) = (hp[0], (0..hp[1]).map(|k| 201 + k as u8).collect::<Vec<u8>>());
+    let mut buf = DecodeBuffer::new(window);
+    buf.dict_content.extend_from_slice(&dict);
+    let mut produced: Vec<u8> = vec![];
+    let mut drained = 0usize;
+    let mut ctr = 0u32;
+    let mut steps = 0;
+    for op in ops.split(';').filter(|s| !s.is_empty()) {
+        steps += 1;
+        let f: Vec<usize> = op[1..].split(',').filter(|s| !s.is_empty()).map(|s| s.parse().unwrap()).collect();
+        let mut fresh = |k: usize| -> Vec<u8> {
+            (0..k)
+                .map(|_| {
+                    ctr += 1;
+                    (ctr % 251) as u8 + 1
+                })
+                .collect()
+        };
+        let held = produced.len() - drained;
+        let mut take = |got: &[u8], produced: &Vec<u8>, drained: &mut usize| {
+            assert_eq!(got, &produced[*drained..*drained + got.len()], "job {i}: drained bytes differ after {op}");
+            *drained += got.len();
+        };
+        match op.as_bytes()[0] {
+            b'p' => {
+                let d = fresh(f[0]);
+                buf.push(&d);
+                produced.extend(d);
+            }
+            b'l' => {
+                let d = fresh(1)[0];
+                buf.extend_and_fill(d, f[0]);
+                produced.extend(std::iter::repeat(d).take(f[0]));
+            }
+            b'q' => {
+                let d = fresh(f[0]);
+                buf.extend_from_reader(d.as_slice(), f[0]).unwrap();
+                produced.extend(d);
+            }
+            b't' => {
+                let dict_reach = if drained == 0 && produced.len() <= window { dict.len() } else { 0 };
+                let r = buf.repeat(f[0], f[1]);
+                if f[0] <= held + dict_reach {
+                    r.expect("legal repeat");
+                    for _ in 0..f[1] {
+                        let pos = produced.len() as isize - f[0] as isize;
+                        let b = if pos >= 0 { produced[pos as usize] } else { dict[(dict.len() as isize + pos) as usize] };
+                        produced.push(b);
+                    }
+                } else {
+                    assert!(r.is_err(), "job {i}: repeat beyond reach accepted");
+                }
+            }
+            b'a' => {
+                let g = buf.drain_to_window_size().unwrap_or_default();
+                take(&g, &produced, &mut drained);
+            }
+            b'x' => {
+                let g = buf.drain();
+                take(&g, &produced, &mut drained);
+            }
+            b'R' => {
+                let mut t = vec![0u8; f[0]];
+                let k = std::io::Read::read(&mut buf, &mut t).unwrap();
+                take(&t[..k], &produced, &mut drained);
+            }
+            b'A' => {
+                let mut t = vec![0u8; f[0]];
+                let k = buf.read_all(&mut t).unwrap();
+                take(&t[..k], &produced, &mut drained);
+            }
+            b'W' | b'V' => {
+                let mut s = Sink { got: vec![], per_call: f[0], budget: f[1], kind: f[2] as u8 };
+                let _ = if op.as_bytes()[0] == b'V' { buf.drain_to_writer(&mut s) } else { buf.drain_to_window_size_writer(&mut s) };
+                let got = std::mem::take(&mut s.got);
+                take(&got, &produced, &mut drained);
+            }
+            b'z' => {
+                buf.reset(window);
+                buf.dict_content.extend_from_slice(&dict);
+                produced.clear();
+                drained = 0;
+            }
+            x => panic!("unknown buffer op {x}"),
+        }
+        assert_eq!(buf.len(), produced.len() - drained, "job {i}: held bytes after {op}");
+        assert_eq!(buf.verif_contents(), &produced[drained..], "job {i}: contents after {op}");
+    }
+    steps
 }
